@@ -56,6 +56,7 @@ EngineStep ==
        \/ \E pi \in Perms(Len(task[r].reqs)) : Causal(task[r], pi) /\ Finished(r, RecordedDeps(r, pi))
   \/ Running /\ EngineFree /\ ~cyc /\ Stuck /\ \E list \in CycleLists : CycleDetected(list)
   \/ SetIteration(epoch)
+  \/ \E r \in Keys : Forget(r)
   \/ \E v \in {0, IF Running THEN mem[target].value ELSE 0} : BuildReturn(v)
 
 ClientStep ==
